@@ -186,7 +186,7 @@ class Opaque(object):
 PURE_BUILTINS = {
     'range': range, 'len': len, 'dict': dict, 'list': list, 'tuple': tuple, 'sorted': sorted, 'set': set,
     'int': int, 'str': str, 'min': min, 'max': max, 'zip': zip, 'enumerate': enumerate, 'map': None, 'filter': None,
-    'all': all, 'any': any, 'divmod': divmod, 'bin': bin, 'frozenset': frozenset,
+    'all': all, 'any': any, 'divmod': divmod, 'bin': bin, 'frozenset': frozenset, 'bytearray': bytearray, 'bytes': bytes,
     'True': True, 'False': False, 'None': None, 'sum': sum, 'abs': abs, 'pow': pow, 'hex': hex, 'bool': bool, 'ord': ord, 'chr': chr, 'type': type, 'isinstance': isinstance,
 }
 SAFE_METHODS = {
